@@ -7,12 +7,21 @@ AST based, regenerated from the current source on every run.  What is carried:
   every row of `coeff_b` is written out as a generic-`K` scalar definition
   `coeffB_<order>_<row> a0 … a<order> d0 d1 d2` (`a<k>` = `coeff_a_mtr[k]`, `d<i>` = `derivs[i]`),
   operand order and parenthesisation as in the source (so the `Float` instance reproduces NumPy's
-  result).  Blocks guarded by `total > n` with `n ≥ 4` (the Bell-polynomial loop for higher orders)
-  cannot run for the orders of the property and are not carried; the smallest such `n` is recorded.
+  result).  The block guarded by `total > n` with `n ≥ 4` (the Bell-polynomial loop for higher orders)
+  cannot run for the orders of the property; since round 3 it is carried statement by statement all the same
+  (`coeffBHigh`: the loop over the points is the model's "one point", the two `range` loops with their bounds,
+  `coeff_b[j, i_pt] += float(bell(k, j, derivs[:, i_pt])) * coeff_a_mtr[k, i_pt]`), together with
+  `coeffBAny` / `transformOdeFromDerivsAny` for any number of coefficients.
 * `_transform_ode_from_rtransform`: the list of transform methods handed on (`deriv, deriv2, deriv3`).
 * `_rearrange_to_explicit_ode`: `result = fx`, the loop over `enumerate(coeff_b[:-1])`, the final
   division by `coeff_b[-1]` -> an `Option`-monadic fold over lists (an index out of range is `none`).
-  The `warnings.warn` guard has no effect on the value and is skipped.
+  The `if` whose body is the one call `warnings.warn(<text>, <int keywords>)` has no effect on the value; since
+  round 3 its test (`np.any(np.abs(coeff_b[-1]) < 1e-10)`: comparisons of list reads, `np.abs`, literals) is
+  carried as `rearrangeWarns` and the integer keywords as `rearrangeWarnKeywords`; anything else in that block
+  (e.g. a clamp of the leading coefficient) raises.
+* the defaults of the keyword parameters of `solve_ode_ivp` / `solve_ode_bvp` (round 3): one generated constant per
+  literal default (`ivpDefaultRtol`, …), `None` defaults must stay `None`; `solveOdeIvpDefault` / `solveOdeBvpDefault`
+  are the calls with the keywords left out.
 * `_transform_and_rearrange_to_explicit_ode`: the composition (which point the coefficients, the
   transform derivatives and the right-hand side are evaluated at).
 * `_derivative_transformation_matrix`: the `order > numb_derivs` guard, the loop nest with its
@@ -24,6 +33,8 @@ Anything else in those functions must have exactly the shape checked below; othe
 `Untranslatable` is raised (the check treats it as a proof obligation that no longer holds).
 """
 import ast
+import math
+from fractions import Fraction
 
 from ..common import SRC
 from .util import HEADER, write_if_changed
@@ -71,6 +82,19 @@ def _int_const(e):
     if isinstance(e, ast.Constant) and isinstance(e.value, float) and e.value == int(e.value) and abs(e.value) < 2**53:
         return int(e.value)
     return None
+
+
+def _float_literal(e):
+    """a non-negative finite float literal as a quotient of two exactly representable naturals (generic `K`)"""
+    v = e.value
+    if not math.isfinite(v) or v < 0:
+        _fail(e, "float literal is negative / not finite")
+    fr = Fraction(repr(v))
+    if fr.numerator >= 2**53 or fr.denominator >= 2**53 or float(fr.numerator) / float(fr.denominator) != v:
+        _fail(e, "float literal is not a quotient of two exactly representable integers")
+    if fr.denominator == 1:
+        return _nat(fr.numerator)
+    return f"({_nat(fr.numerator)} / {_nat(fr.denominator)})"
 
 
 # ----------------------------------------------------------------------------------------------
@@ -142,6 +166,7 @@ def translate_coeffs(tree):
     seen = set()
     stmts = []  # (guard n or None, row, op, expr-node)
     bell_from = None
+    bell_lines = None
     returned = False
 
     def accum(s, guard):
@@ -175,8 +200,13 @@ def translate_coeffs(tree):
                 _fail(s, "else branch")
             n = _total_guard(s.test)
             if n >= 4:
-                bell_from = n if bell_from is None else min(bell_from, n)
-                continue  # cannot run for total <= 4 (orders <= 3)
+                # the Bell-polynomial loop of the higher orders: cannot run for total <= 4 (orders <= 3); carried
+                # statement by statement (round 3) as `coeffBHigh`
+                if bell_from is not None:
+                    _fail(s, "a second block guarded by `total > n`, n >= 4")
+                bell_from = n
+                bell_lines = translate_bell_block(s.body)
+                continue
             for b in s.body:
                 accum(b, n)
             continue
@@ -214,11 +244,117 @@ def translate_coeffs(tree):
         out.append(f"  | [{', '.join(names)}] => some (coeffB{order} {' '.join(names)} d0 d1 d2)")
     out.append("  | _ => none")
     out.append("")
-    out.append("/-- Smallest `n` of a block `if total > n:` that is not carried (Bell-polynomial loop of the "
-               "higher orders);\nit cannot run for `total ≤ 4`. -/")
+    out.append("/-- The `n` of the block `if total > n:` that holds the Bell-polynomial loop of the higher orders "
+               "(`coeffBHigh` below);\nit cannot run for `total ≤ 4`. -/")
     out.append(f"def bellLoopGuard : Option Nat := {'none' if bell_from is None else f'some {bell_from}'}")
     out.append("")
+    out.append("/-- The block `if total > n:` (n ≥ 4) of `_transform_ode_from_derivs`, one point (the loop `for i_pt in "
+               "range(len(x))` is the\nloop over the points): `bell k j` stands for `float(bell(k, j, derivs[:, i_pt]))` "
+               "(SymPy), `coeff_b` is the column\nbuilt so far.  An index out of range is NumPy's IndexError (`none`). -/")
+    out.append("def coeffBHigh (bell : Nat → Nat → K) (coeff_a_mtr : List K) (total : Nat) (coeff_b : List K) : "
+               "Option (List K) := do")
+    if bell_from is None:
+        out.append("  pure coeff_b")
+    else:
+        out.append(f"  if decide (total > {bell_from}) then do")
+        out += bell_lines
+        out.append("    pure coeff_b")
+        out.append("  else pure coeff_b")
+    out.append("")
+    out.append("/-- `coeff_b` for any `len(coeffs) ≥ 2`, one point: `np.zeros`, the vectorised statements (for `total ≥ 4` every "
+               "guard\n`total > n`, n ≤ 3, holds, so rows 0–3 are those of order 3 and the further rows stay zero), then the "
+               "block `coeffBHigh`. -/")
+    out.append("def coeffBAny (bell : Nat → Nat → K) (a : List K) (d0 d1 d2 : K) : Option (List K) :=\n  match a with")
+    for order in (1, 2, 3):
+        names = [f"a{k}" for k in range(order + 1)]
+        out.append(f"  | [{', '.join(names)}] => coeffBHigh bell a a.length (coeffB{order} {' '.join(names)} d0 d1 d2)")
+    out.append("  | a0 :: a1 :: a2 :: a3 :: rest =>\n    coeffBHigh bell a a.length (coeffB3 a0 a1 a2 a3 d0 d1 d2 ++ colZeros rest.length)")
+    out.append("  | _ => none")
+    out.append("")
     return out
+
+
+def translate_bell_block(body):
+    """for i_pt in range(len(x)): for j in range(4, total): for k in range(j, total):
+           all_derivs_at_pt = derivs[:, i_pt]
+           coeff_b[j, i_pt] += float(bell(k, j, all_derivs_at_pt)) * coeff_a_mtr[k, i_pt]
+    -> the lines of a Lean `do` block over one point (the outermost loop is the loop over the points)."""
+    if len(body) != 1 or not isinstance(body[0], ast.For):
+        _fail(body[0], "the block is not one loop over the points")
+    outer = body[0]
+    if outer.orelse or not isinstance(outer.target, ast.Name) or _src(outer.iter) not in ("range(len(x))", "range(x.size)"):
+        _fail(outer, "outermost loop is not `for <i> in range(len(x))`")
+    pt = outer.target.id
+    alias = set()
+
+    def col(e, arrays):
+        """`<array>[<nat>, pt]` -> (array, index text)"""
+        if (isinstance(e, ast.Subscript) and isinstance(e.value, ast.Name) and e.value.id in arrays
+                and isinstance(e.slice, ast.Tuple) and len(e.slice.elts) == 2
+                and isinstance(e.slice.elts[1], ast.Name) and e.slice.elts[1].id == pt):
+            return e.value.id, e.slice.elts[0]
+        return None
+
+    def expr(e, names):
+        c = _int_const(e)
+        if c is not None:
+            return _nat(c) if c >= 0 else f"(-{_nat(-c)})"
+        if isinstance(e, ast.Call) and _src(e.func) == "float" and len(e.args) == 1 and not e.keywords:
+            b = e.args[0]
+            if (isinstance(b, ast.Call) and _src(b.func) == "bell" and len(b.args) == 3 and not b.keywords
+                    and isinstance(b.args[2], ast.Name) and b.args[2].id in alias):
+                n, k = (_nat_expr(x, names) for x in b.args[:2])
+                return f"(bell {n} {k})"
+            _fail(e, "float(...) of something that is not bell(n, k, <derivatives at the point>)")
+        c2 = col(e, ("coeff_a_mtr", "coeff_b"))
+        if c2 is not None:
+            return f"(← {c2[0]}[{_nat_expr(c2[1], names)}]?)"
+        if isinstance(e, ast.UnaryOp) and isinstance(e.op, ast.USub):
+            return f"(-{expr(e.operand, names)})"
+        if isinstance(e, ast.BinOp):
+            op = {ast.Add: "+", ast.Sub: "-", ast.Mult: "*", ast.Div: "/"}.get(type(e.op))
+            if op is None:
+                _fail(e, "unsupported operator")
+            return f"({expr(e.left, names)} {op} {expr(e.right, names)})"
+        _fail(e, "unsupported expression in the Bell loop")
+
+    def block(stmts, names, ind):
+        p = " " * ind
+        out = []
+        for s in stmts:
+            if isinstance(s, ast.For):
+                it = s.iter
+                if s.orelse or not isinstance(s.target, ast.Name) or not (
+                        isinstance(it, ast.Call) and _src(it.func) == "range" and not it.keywords and len(it.args) in (1, 2)):
+                    _fail(s, "loop is not over range(lo, hi)")
+                lo = _nat_expr(it.args[0], names) if len(it.args) == 2 else "0"
+                hi = _nat_expr(it.args[-1], names)
+                v = s.target.id
+                out.append(f"{p}let coeff_b ← (pyRange {lo} {hi}).foldlM (fun coeff_b {v} => do")
+                out += block(s.body, names | {v}, ind + 4)
+                out.append(f"{p}    pure coeff_b) coeff_b")
+                continue
+            if (isinstance(s, ast.Assign) and len(s.targets) == 1 and isinstance(s.targets[0], ast.Name)
+                    and _src(s.value) == f"derivs[:, {pt}]"):
+                alias.add(s.targets[0].id)        # the derivatives of the transform at the point
+                continue
+            if isinstance(s, (ast.AugAssign, ast.Assign)):
+                t = s.target if isinstance(s, ast.AugAssign) else (s.targets[0] if len(s.targets) == 1 else None)
+                c2 = col(t, ("coeff_b",)) if t is not None else None
+                if c2 is not None:
+                    row = _nat_expr(c2[1], names)
+                    val = expr(s.value, names)
+                    if isinstance(s, ast.AugAssign):
+                        op = {ast.Add: "+", ast.Sub: "-"}.get(type(s.op))
+                        if op is None:
+                            _fail(s, "unsupported augmented assignment")
+                        val = f"((← coeff_b[{row}]?) {op} {val})"
+                    out.append(f"{p}let coeff_b ← listSet coeff_b {row} {val}")
+                    continue
+            _fail(s, "unsupported statement in the Bell loop")
+        return out
+
+    return block(outer.body, {"total"}, 4)
 
 
 # ----------------------------------------------------------------------------------------------
@@ -255,6 +391,13 @@ def translate_rtransform(tree):
            "  let derivs := deriv_transformation.map fun dev => dev x",
            "  let coeff_a_mtr := evaluateCoeffsOnPoints x coeffs",
            "  coeffB coeff_a_mtr (← derivs[0]?) (← derivs[1]?) (← derivs[2]?)", "",
+           "/-- The same statements for any `len(coeffs) ≥ 2` (with the block of the higher orders, `coeffBHigh`): "
+           "`bell(k, j, derivs[:, i_pt])`\nreads the derivative list of whatever length was passed. -/",
+           "def transformOdeFromDerivsAny (coeffs : List (Coeff K)) (deriv_transformation : List (K → K)) (x : K) :",
+           "    Option (List K) := do",
+           "  let derivs := deriv_transformation.map fun dev => dev x",
+           "  let coeff_a_mtr := evaluateCoeffsOnPoints x coeffs",
+           "  coeffBAny (fun n k => bell (seqOfList derivs) n k) coeff_a_mtr (← derivs[0]?) (← derivs[1]?) (← derivs[2]?)", "",
            f"/-- `{lst} = [" + ", ".join(f"tf.{m}" for m in methods) + f"]`; `return _transform_ode_from_derivs(coeff_a, {lst}, x)`. -/",
            "def transformOdeFromRtransform (coeff_a : List (Coeff K)) (tf : TransformFns K) (x : K) : Option (List K) :=",
            f"  let {lst} := [" + ", ".join(f"tf.{m}" for m in methods) + "]",
@@ -306,15 +449,30 @@ def translate_rearrange(tree):
     le = ListExpr({"fx"}, {"y", "coeff_b"})
     lines = []
     returned = False
+    warn = None
     for s in _body(f):
         if returned:
             _fail(s, "statement after return")
         if isinstance(s, ast.If):
-            # only the warning about a (nearly) vanishing leading coefficient: no effect on the value
+            # only the warning about a (nearly) vanishing leading coefficient: no effect on the value.  The block must
+            # consist of the one call `warnings.warn(<text>, <int keywords>)`; its test is carried as `rearrangeWarns`.
             if s.orelse or len(s.body) != 1 or not (isinstance(s.body[0], ast.Expr)
                                                     and isinstance(s.body[0].value, ast.Call)
                                                     and _src(s.body[0].value.func) == "warnings.warn"):
                 _fail(s, "`if` with an effect on the result")
+            if warn is not None:
+                _fail(s, "a second warning block")
+            call = s.body[0].value
+            if len(call.args) != 1 or not isinstance(call.args[0], (ast.Constant, ast.JoinedStr)) or \
+                    (isinstance(call.args[0], ast.Constant) and not isinstance(call.args[0].value, str)):
+                _fail(call, "warnings.warn is not called with one message text")
+            kws = []
+            for k in call.keywords:
+                v = _int_const(k.value)
+                if k.arg is None or v is None or v < 0 or not isinstance(k.value.value if isinstance(k.value, ast.Constant) else None, int):
+                    _fail(call, "keyword of warnings.warn is not `<name>=<non-negative int>`")
+                kws.append((k.arg, v))
+            warn = (WarnExpr(set(le.scalars), set(le.lists)).test(s.test), kws)
             continue
         if isinstance(s, ast.Assign) and len(s.targets) == 1 and isinstance(s.targets[0], ast.Name):
             n = s.targets[0].id
@@ -370,7 +528,47 @@ def translate_rearrange(tree):
     out = ["/-! ### `_rearrange_to_explicit_ode` (one point; rows of `y`, `coeff_b` as lists) -/", "",
            "/-- `(fx − Σ_{i<K} coeff_b[i]·y[i]) / coeff_b[K]` as the code computes it. -/",
            "def rearrangeToExplicitOde (y coeff_b : List K) (fx : K) : Option K := do"] + lines + [""]
+    out += ["section warn", "variable [LT K] [DecidableLT K] [LE K] [DecidableLE K] [Elem K]", "",
+            "/-- The test of the `if` of `_rearrange_to_explicit_ode` whose only statement is `warnings.warn(…)`, at one point "
+            "(the code\nasks `np.any(…)` over the points): `none` = evaluating the test raises.  The block has no effect on the "
+            "value:\n`rearrangeToExplicitOde` does not read it (the translator raises when the block holds anything but the "
+            "one call). -/",
+            "def rearrangeWarns (y coeff_b : List K) (fx : K) : Option Bool := do",
+            f"  pure {warn[0] if warn else 'false'}", "", "end warn", "",
+            "/-- integer keyword arguments of that `warnings.warn` call (no effect on any value). -/",
+            "def rearrangeWarnKeywords : List (String × Nat) := ["
+            + ", ".join(f'("{k}", {v})' for k, v in (warn[1] if warn else [])) + "]", ""]
     return out
+
+
+class WarnExpr(ListExpr):
+    """the test of the warning block: comparisons of expressions over list reads, `np.abs`, literals"""
+
+    def tr(self, e):
+        if isinstance(e, ast.Constant) and isinstance(e.value, float):
+            return _float_literal(e)
+        if isinstance(e, ast.Call) and _src(e.func) in ("np.abs", "abs", "np.absolute", "np.fabs") and len(e.args) == 1 \
+                and not e.keywords:
+            return f"(Elem.abs {self.tr(e.args[0])})"
+        return ListExpr.tr(self, e)
+
+    def test(self, e):
+        if isinstance(e, ast.Call) and _src(e.func) == "np.any" and len(e.args) == 1 and not e.keywords:
+            e = e.args[0]          # over the points; the model is one point
+        if isinstance(e, ast.BoolOp):
+            op = "&&" if isinstance(e.op, ast.And) else "||"
+            return "(" + f" {op} ".join(self.test(v) for v in e.values) + ")"
+        if isinstance(e, ast.Compare) and len(e.ops) == 1:
+            l, r = self.tr(e.left), self.tr(e.comparators[0])
+            if isinstance(e.ops[0], ast.Lt):
+                return f"(decide ({l} < {r}))"
+            if isinstance(e.ops[0], ast.Gt):
+                return f"(decide ({r} < {l}))"
+            if isinstance(e.ops[0], ast.LtE):
+                return f"(decide ({l} ≤ {r}))"
+            if isinstance(e.ops[0], ast.GtE):
+                return f"(decide ({r} ≤ {l}))"
+        _fail(e, "test of the warning block is not a comparison")
 
 
 # ----------------------------------------------------------------------------------------------
@@ -1240,6 +1438,44 @@ def _emit_helpers(c, prims):
 PRIM_SOLVE = "(solve : Mat K → List K → List K) (isinf : K → Bool)"
 
 
+def _camel(name):
+    return "".join(w.capitalize() for w in name.split("_"))
+
+
+def translate_defaults(f, prefix, must_be_none):
+    """defaults of the keyword parameters (signature) -> one generated constant each; -> (lines, {param: lean name})"""
+    params = f.args.args
+    defaults = f.args.defaults
+    if f.args.kwonlyargs or f.args.vararg or f.args.kwarg or f.args.posonlyargs:
+        _fail(f, "unexpected kind of parameters")
+    out = [f"/-! ### defaults of the keyword parameters of `{f.name}` (its signature) -/", ""]
+    names = {}
+    seen_none = set()
+    for a, d in zip(params[len(params) - len(defaults):], defaults):
+        lname = f"{prefix}Default{_camel(a.arg)}"
+        if isinstance(d, ast.Constant) and d.value is None:
+            seen_none.add(a.arg)
+            continue
+        if a.arg in must_be_none:
+            _fail(d, f"default of `{a.arg}` is not None")
+        if isinstance(d, ast.Constant) and isinstance(d.value, bool):
+            out += [f"/-- `{a.arg}={d.value}` -/", f"def {lname} : Bool := {'true' if d.value else 'false'}", ""]
+        elif isinstance(d, ast.Constant) and isinstance(d.value, int):
+            if d.value < 0:
+                _fail(d, "negative integer default")
+            out += [f"/-- `{a.arg}={d.value}` -/", f"def {lname} : Nat := {d.value}", ""]
+        elif isinstance(d, ast.Constant) and isinstance(d.value, float):
+            out += [f"/-- `{a.arg}={_src(d)}` -/", f"def {lname} : K := {_float_literal(d)}", ""]
+        elif isinstance(d, ast.Constant) and isinstance(d.value, str) and '"' not in d.value and "\\" not in d.value:
+            out += [f"/-- `{a.arg}={d.value!r}` -/", f'def {lname} : String := "{d.value}"', ""]
+        else:
+            _fail(d, f"default of `{a.arg}` is not a literal")
+        names[a.arg] = lname
+    if seen_none != set(must_be_none):
+        _fail(f, f"parameters with default None are {sorted(seen_none)}, expected {sorted(must_be_none)}")
+    return out, names
+
+
 def translate_ivp(tree):
     f = _func(tree, "solve_ode_ivp")
     params = [a.arg for a in f.args.args]
@@ -1267,6 +1503,18 @@ def translate_ivp(tree):
             "    (no_derivatives : Bool) : Except OdeErr (K → Option (List K)) := do"] + lines + ["", "end ordered", ""]
     out += ["/-- keyword arguments of the `scipy.integrate.solve_ivp` call (besides `func`, `x_span`). -/",
             "def solveIvpKeywords : List String := [" + ", ".join(f'"{k}"' for k in c.kwrecord.get("solve_ivp", [])) + "]", ""]
+    dl, dn = translate_defaults(f, "ivp", {"transform"})
+    if set(dn) != {"method", "no_derivatives", "rtol", "atol"}:
+        _fail(f, f"solve_ode_ivp: parameters with a default are {sorted(dn)}")
+    out += dl
+    out += ["section ordered", "variable [LT K] [DecidableLT K]", "",
+            "/-- `solve_ode_ivp(x_span, fx, coeffs, y0, transform)` with every further keyword left at its default: `rtol`, `atol`, `method`\n"
+            "go to `scipy.integrate.solve_ivp` (the parameter `solve_ivp` stands for that call), `no_derivatives` selects the returned rows. -/",
+            "def solveOdeIvpDefault (solve_ivp : (K → List K → Option (List K)) → List K → List K → SolveResult K)",
+            f"    {PRIM_SOLVE}",
+            "    (x_span : List K) (fx : K → K) (coeffs : List (Coeff K)) (y0 : List K) (transform : Option (TransformFns K)) :",
+            "    Except OdeErr (K → Option (List K)) :=",
+            f"  solveOdeIvp solve_ivp solve isinf x_span fx coeffs y0 transform {dn['no_derivatives']}", "", "end ordered", ""]
     return out
 
 
@@ -1292,6 +1540,16 @@ def translate_bvp(tree):
             "    (transform : Option (TransformFns K)) (no_derivatives : Bool) : Except OdeErr (K → Option (List K)) := do"] + lines + [""]
     out += ["/-- keyword arguments of the `scipy.integrate.solve_bvp` call (besides `func`, `bc`, the mesh). -/",
             "def solveBvpKeywords : List String := [" + ", ".join(f'"{k}"' for k in c.kwrecord.get("solve_bvp", [])) + "]", ""]
+    dl, dn = translate_defaults(f, "bvp", {"transform", "initial_guess_y"})
+    if set(dn) != {"tol", "max_nodes", "no_derivatives"}:
+        _fail(f, f"solve_ode_bvp: parameters with a default are {sorted(dn)}")
+    out += dl
+    out += ["/-- `solve_ode_bvp(x, fx, coeffs, bd_cond, transform)` with every further keyword left at its default: `tol`, `max_nodes` go to\n"
+            "`scipy.integrate.solve_bvp` (the parameter `solve_bvp` stands for that call), `no_derivatives` selects the returned rows. -/",
+            "def solveOdeBvpDefault (solve_bvp : (K → List K → Option (List K)) → (List K → List K → Option (List K)) → List K → SolveResult K)",
+            "    (x : List K) (fx : K → K) (coeffs : List (Coeff K)) (bd_cond : List (Nat × Nat × K))",
+            "    (transform : Option (TransformFns K)) : Except OdeErr (K → Option (List K)) :=",
+            f"  solveOdeBvp solve_bvp x fx coeffs bd_cond transform {dn['no_derivatives']}", ""]
     return out
 
 
